@@ -127,3 +127,32 @@ func AutoYield(site string) {
 	}
 	yieldAs(site, who)
 }
+
+// Seeded select: the order in which the cases of a rewritten select are polled is a permutation derived from the run's
+// select seed and a counter (the k-th select poll of the run), so it is a pure function of the execution.
+var (
+	selectSeed  atomic.Uint64
+	selectCount atomic.Uint64
+)
+
+// SetSelectSeed is called by the world at the start of a run.
+func SetSelectSeed(seed uint64) {
+	selectSeed.Store(seed)
+	selectCount.Store(0)
+}
+
+// Perm returns the poll order of a select with n cases.
+func Perm(n int) []int {
+	k := selectCount.Add(1)
+	x := Mix(selectSeed.Load(), 0x5e1ec7, k)
+	p := make([]int, n)
+	for i := range p {
+		p[i] = i
+	}
+	for i := n - 1; i > 0; i-- {
+		x = SplitMix64(x)
+		j := int(x % uint64(i+1))
+		p[i], p[j] = p[j], p[i]
+	}
+	return p
+}
